@@ -187,6 +187,10 @@ fn main() {
             for (src, consumer, reqs) in &reads {
                 let (r, _) = read_msg(cfg, &pk, SchedBufReader::new(reference.clone(), src.clone()), *consumer, reqs);
                 let ok = matches!(&r, Ok((o, s)) if *o == payload && *s);
+                // the model's message reader (Msg/ReadEnd.v) under the same consumer: empty-buffer reads in between
+                if *consumer == 3 && payload.len() <= 600 {
+                    cx.out.case("msgread", &[hx(&payload), nums(reqs)], &["msgread".into(), cname.clone(), n.to_string(), nums(src), nums(reqs)], &match &r { Ok((o, _)) => format!("OK {}", hx(o)), Err(_) => "ERR".to_string() }, None, "message-read-with-empty-requests");
+                }
                 cx.out.case("", &[], &["read-sched".into(), cname.clone(), n.to_string(), nums(src), consumer.to_string(), nums(reqs)], &match &r { Ok((o, s)) => format!("payload-equal={} sig={}", *o == payload, *s as u8), Err(e) => format!("ERR {}", &e[..e.len().min(80)]) }, Some(ok), &format!("read-schedule-{cname}"));
             }
             // 2b'. armored messages as another implementation or a mail gateway leaves them: CR LF line endings; the reader under the
